@@ -9,8 +9,9 @@
     model  = `genText` / `genEq` / `genNe` of the field list;
     agree  = syntactic equality (text lines AND IR AND bindings);
     spec   = executing the OBSERVED scripts (`execEq`, `execNe`) on a canonical family of operands derived from
-             the field list — every vector of per-field outcomes over {T, F} (all four outcomes for up to two
-             fields), plus one non-bool variant per field, each with the outcomes of the OTHER two ways of
+             the field list — every vector of per-field outcomes over {T, F} for up to six fields (all four outcomes
+             for up to two; above six: all-true and one field false at the ends and quarter points), plus non-bool
+             variants of single fields, each with the outcomes of the OTHER two ways of
              comparing the field (raw / eq-keyed / order-keyed) set to the contrary, for operands of the same
              class, the identical object, and sub / super / foreign operands — yields what `C03.specRound` demands.
 
@@ -68,12 +69,17 @@ def vectors {α : Type} (dom : List α) : Nat → List (List α)
 def setAt (fs : List Field) (i : Nat) (o : Outcome) : List Field :=
   (fs.zipIdx).map (fun (f, j) => if j == i then withOutcome f o else withOutcome f .T)
 
+/-- the positions at which single fields are varied: all of them up to 8 fields; otherwise both ends, their
+    neighbours and the quarter points (size thresholds show in the text, not in which field is varied) -/
+def positions (n : Nat) : List Nat :=
+  if n ≤ 8 then List.range n else [0, 1, n / 4, n / 2, 3 * n / 4, n - 2, n - 1].eraseDups
+
 /-- the canonical outcome assignments of a field list -/
 def assignments (fs : List Field) : List (List Field) :=
   let dom : List Outcome := if fs.length ≤ 2 then [.T, .F, .truthy, .falsy] else [.T, .F]
   let full := if fs.length ≤ 6 then (vectors dom fs.length).map (fun v => (fs.zip v).map (fun (f, o) => withOutcome f o))
-              else [fs.map (withOutcome · .T)] ++ (List.range fs.length).map (fun i => setAt fs i .F)
-  full ++ (List.range fs.length).flatMap (fun i => [setAt fs i .truthy, setAt fs i .falsy])
+              else [fs.map (withOutcome · .T)] ++ (positions fs.length).map (fun i => setAt fs i .F)
+  full ++ (positions fs.length).flatMap (fun i => [setAt fs i .truthy, setAt fs i .falsy])
 
 /-- the canonical operand family -/
 def operands (c : Case) : List C03.Case :=
